@@ -6,5 +6,15 @@
 //! exhausts memory (DESIGN.md section 2). Two capacities: `mvec::Vec` (4) for the packet list fields, `mvec8::Vec` (8) for topic levels.
 //! Pushing beyond `MVEC_CAP` is an assertion failure
 //! (reported), never a silent drop.
-pub const MVEC_CAP: usize = 4;
+/// capacity 4 unless the harness asks for a smaller one (`//@ env: VERIF_MVEC_CAP=1`): harnesses of
+/// the connection-state slice move whole acknowledgement packets around and never put more than
+/// one element into a list; every move copies the inline storage
+pub const MVEC_CAP: usize = match option_env!("VERIF_MVEC_CAP") {
+    Some(s) => {
+        let b = s.as_bytes();
+        assert!(b.len() == 1 && b[0] >= b'1' && b[0] <= b'8');
+        (b[0] - b'0') as usize
+    }
+    None => 4,
+};
 include!("mvec_body.rs");
